@@ -194,7 +194,9 @@ func runC19(r *Run) {
 				b = append(b, []string{"\r\n", "\n", "\r\n", "\r\r\n"}[rng.Intn(4)]...)
 			}
 			if rng.Intn(5) == 0 {
-				b = b[:len(b)-1-rng.Intn(2)]
+				if cut := 1 + rng.Intn(2); cut <= len(b) {
+					b = b[:len(b)-cut]
+				}
 			}
 		}
 		pin = append(pin, b)
